@@ -17,6 +17,8 @@ import time
 from concurrent.futures import ThreadPoolExecutor
 
 VERIF = os.path.dirname(os.path.dirname(os.path.abspath(__file__)))
+# evidence and replay witnesses go to /verif unless a seeded-change test run redirects them (bin/mutant-test2)
+OUT = os.environ.get("VERIF_OUT", VERIF)
 NCPU = int(os.environ.get("VERIF_JOBS", "16"))
 
 ASAN_OPTS = ("detect_leaks=0:detect_stack_use_after_return=1:allocator_may_return_null=1:"
@@ -253,7 +255,7 @@ class Ctx:
         self.extra = {}
         self.known = [k for k in load_known() if k.get("property") == prop]
         self.lock = threading.Lock()
-        self.replay_root = os.path.join(VERIF, "replay", prop)
+        self.replay_root = os.path.join(OUT, "replay", prop)
         shutil.rmtree(self.replay_root, ignore_errors=True)   # witnesses belong to the current run only
 
     def sub_seed(self, *parts):
@@ -357,7 +359,7 @@ class Ctx:
             cov.update(coverage_extra)
         ev = dict(property_id=self.prop, tier=self.tier, seed=self.seed, level=self.level, coverage=cov,
                   assumptions=self.assumptions, wall_s=round(wall, 2), violations=len(self.violations))
-        os.makedirs(os.path.join(VERIF, "evidence"), exist_ok=True)
+        os.makedirs(os.path.join(OUT, "evidence"), exist_ok=True)
         harness_fail = None
         if self.evaluations < min_evals or len(self.nontrivial) < min_nontrivial:
             harness_fail = "too little observed: evaluations=%d distinct_nontrivial=%d" % (self.evaluations, len(self.nontrivial))
@@ -366,7 +368,7 @@ class Ctx:
         if not self.samples:
             harness_fail = harness_fail or "no samples recorded"
         if not harness_fail or self.violations:
-            with open(os.path.join(VERIF, "evidence", self.prop + ".json"), "w") as fh:
+            with open(os.path.join(OUT, "evidence", self.prop + ".json"), "w") as fh:
                 json.dump(ev, fh, indent=1, default=str)
         for sig, (what, n) in sorted(self.known_hits.items()):
             print("KNOWN-FINDING: property=%s %s [signature %s, reproduced %d times]" % (self.prop, what, sig, n))
